@@ -136,7 +136,7 @@ def rel(c, e, g):
 
 def run(ctx):
     r = ctx.rng
-    n = 3000 if ctx.tier == 'quick' else 80000
+    n = 3000 if ctx.tier == 'quick' else 300000
     cases = [gen_case(r) for _ in range(n)]
     args, raw, exp = model_header(cases)
     for name in ('py', 'js'):
